@@ -242,6 +242,7 @@ func Serialize(r *rand.Rand, nodes []*Node, noise int) string {
 				continue
 			}
 			b.WriteString("<" + name)
+			lastUnquoted := false
 			for _, a := range n.Attrs {
 				k, v := a[0], a[1]
 				if noise == 0 {
@@ -253,18 +254,24 @@ func Serialize(r *rand.Rand, nodes []*Node, noise int) string {
 				}
 				sep := " "
 				switch r.Intn(12) {
+				case 2, 3:
+					if lastUnquoted {
+						break // "/" right after an unquoted value would be read as part of it
+					}
+					if r.Intn(2) == 0 {
+						sep = "/"
+					} else {
+						sep = " / "
+					}
 				case 0:
 					sep = "\n"
 				case 1:
 					sep = "\t"
-				case 2:
-					sep = "/"
-				case 3:
-					sep = " / "
 				case 4:
 					sep = "\f"
 				}
 				b.WriteString(sep + k)
+				wasUnquoted := false
 				switch q := r.Intn(10); {
 				case q < 5:
 					b.WriteString(`="` + noisyText(r, v, noise, true, '"') + `"`)
@@ -277,6 +284,7 @@ func Serialize(r *rand.Rand, nodes []*Node, noise int) string {
 						b.WriteString(`=""`)
 					} else {
 						b.WriteString(`=` + noisyText(r, v, noise, true, 0))
+						wasUnquoted = true
 					}
 				default:
 					if v == "" {
@@ -285,9 +293,10 @@ func Serialize(r *rand.Rand, nodes []*Node, noise int) string {
 						b.WriteString(` = "` + noisyText(r, v, noise, true, '"') + `"`)
 					}
 				}
+				lastUnquoted = wasUnquoted
 			}
 			if n.SelfCl {
-				if noise > 0 && r.Intn(2) == 0 {
+				if lastUnquoted || (noise > 0 && r.Intn(2) == 0) {
 					b.WriteString(" />")
 				} else {
 					b.WriteString("/>")
